@@ -29,7 +29,7 @@ CLAIMED = {
             "Sent; no order-breaking queue operation; re-arm is paired with the DUP patch and resets every retained entry "
             "to Write{0} unconditionally. These are inductive "
             "who-may-mutate facts that hold for histories of any length and every crash point because they quantify "
-            "over all call sites and paths; retransmission byte-identity and counting are not computed. The acknowledgement removal takes out exactly the entry it looked up by identifier (index provenance), its lookup does not depend on data that changes while the packet is in flight, and the entry is removed before the reason code is examined; the arena clauses of C17 are evaluated here as well.",
+            "over all call sites and paths; retransmission byte-identity and counting are not computed. The acknowledgement removal takes out exactly the entry it looked up by identifier (index provenance), its lookup does not depend on data that changes while the packet is in flight, and the entry is removed before the reason code is examined; the arena clauses of C17 are evaluated here as well. The removal function reports true exactly on the paths that removed an entry. Every successful handshake stores the broker's Maximum Packet Size itself (CONNACK value or none), so a limit of an earlier connection cannot refuse the replay.",
             "DESIGN.md §4 C02"),
     "C01": ("must-dataflow (DRAINED) + table extraction/value-set folding of fixed-header flags vs MQTT 5 Table 2-2 + "
             "dominance/wiring on mir_built",
@@ -39,14 +39,14 @@ CLAIMED = {
             "packet kind the client can send or retain; replay restarts all three queues at byte 0; CONNECT is the first "
             "I/O and nothing follows a DISCONNECT without the latch; remaining-length and slice wiring; fresh/in-progress "
             "decision tables. Three genuine defects are listed as known findings. The byte stream itself is not produced "
-            "or parsed: these are necessary conditions that hold for every schedule because they quantify over all paths. Also evaluated here because the stream is only well-formed if they hold: Varint::encoded_len agrees with the varint encoder (abstract interpretation), and the arena clauses of C17 (views behind retained bytes, arena writers, compaction, offset/len wiring).",
+            "or parsed: these are necessary conditions that hold for every schedule because they quantify over all paths. Also evaluated here because the stream is only well-formed if they hold: Varint::encoded_len agrees with the varint encoder (abstract interpretation), and the arena clauses of C17 (views behind retained bytes, arena writers, compaction, offset/len wiring). The identifier allocator never yields 0 (C07's clause, evaluated here: identifier 0 is malformed).",
             "DESIGN.md §4 C01"),
     "C03": ("path-sensitive must-pass (constant-propagated path enumeration) + who-may-mutate census + wiring on mir_built",
             "Static analysis, structural clauses only: every feasible path to the PUBREL enqueue passes the success edge of "
             "the retained-removal and of the PUBREC reason check and carries the PUBREC's identifier; release entries are "
             "removed only by the PUBCOMP arm with that identifier; no order-breaking operation on the release queue; "
             "PUBREL is serialised from the step's identifier and release entries are re-armed for replay. Interleavings of "
-            "several exchanges are covered through these per-entry invariants, not enumerated. The PUBCOMP removal takes out exactly the entry it looked up (index provenance: position over the whole list, or over the tail plus one).",
+            "several exchanges are covered through these per-entry invariants, not enumerated. The PUBCOMP removal takes out exactly the entry it looked up (index provenance: position over the whole list, or over the tail plus one). The removal functions report true exactly when they removed an entry; the PUBREC's lookup of the PUBLISH tests the identifier only (a replayed PUBLISH has DUP set).",
             "DESIGN.md §4 C03"),
     "C04": ("path-sensitive must-pass over the inbound handler arms + wiring + who-may-mutate on mir_built",
             "Static analysis, structural clauses only: in the PUBLISH arm every feasible delivering path (QoS 1) / non-error "
@@ -54,14 +54,14 @@ CLAIMED = {
             "identifier was just recorded, recording only when not already pending; every non-error PUBREL path queues a "
             "PUBCOMP with the table-correct reason and forgets the identifier; acks are serialised off-arena into their own "
             "queue; the reset clears pending identifiers; the delivered message is re-decoded from exactly the consumed prefix "
-            "of the untouched receive buffer with fields passed through. Decoder correctness for arbitrary bytes is C08/C09. The session reset that forgets pending inbound identifiers is placed on the no-session edge, on every path, before the handshake can fail for another reason. Nothing in the inbound PUBLISH arm consults the client's own in-flight tables (broker and client identifiers are separate spaces).",
+            "of the untouched receive buffer with fields passed through. Decoder correctness for arbitrary bytes is C08/C09. The session reset that forgets pending inbound identifiers is placed on the no-session edge, on every path, before the handshake can fail for another reason. Nothing in the inbound PUBLISH arm consults the client's own in-flight tables (broker and client identifiers are separate spaces). No await point lies between taking a PUBLISH out of the reader and returning it to the caller (C13's clause).",
             "DESIGN.md §4 C04"),
     "C05": ("wiring (expression reconstruction incl. closure captures) + dominance/must-pass on the handshake's mir_built",
             "Static analysis, structural clauses only: clean_start = !session_present and the client id wiring of CONNECT; "
             "session_present is set only by the handshake after reason code and all properties were accepted; the reset runs "
             "exactly on the no-session edge, before anything else in the handshake can fail, clears outbound and inbound "
             "in-flight state and bumps the generation; the ConnectEvent follows session_present; new identifiers are "
-            "allocated only after a successful drain. Broker behaviour is not modelled. The re-arm reached from Session::connect resets every entry of every queue unconditionally. The status decision compares generations before identifiers (C18's table, evaluated here).",
+            "allocated only after a successful drain. Broker behaviour is not modelled. The re-arm reached from Session::connect resets every entry of every queue unconditionally. The status decision compares generations before identifiers (C18's table, evaluated here). The identifier CONNECT carries may be read from several state fields (configured / assigned); each is written only at construction and by the handshake from the CONNACK's Assigned Client Identifier.",
             "DESIGN.md §4 C05"),
     "C06": ("who-may-write + value-shape matching + path-sensitive must-pass with correlated reason-code tests + "
             "interprocedural dependence (fields touched by the callees of the stored value) on mir_built",
@@ -69,21 +69,21 @@ CLAIMED = {
             "publishes still in flight at (re)connect; decrement tied to the successful enqueue and await-free; the gate "
             "dominates encoding; increments have the shape min(q+1,max), occur only in the PUBACK / PUBCOMP / failing-PUBREC "
             "arms, only after the matching removal, and on every such path. The counting invariant over histories follows "
-            "from these per-operation facts and is not itself computed. max_inflight() is a constant no larger than the capacity of either table an exchange passes through; the in-flight count entering the stored quota is read after the fresh-session reset.",
+            "from these per-operation facts and is not itself computed. max_inflight() is a constant no larger than the capacity of either table an exchange passes through; the in-flight count entering the stored quota is read after the fresh-session reset. The removal functions whose result credits the window report true exactly when an entry was removed; both window fields are stored by every successful handshake.",
             "DESIGN.md §4 C06"),
     "C07": ("type-level fact (NonZeroU16) + wiring of every identifier sink to the allocator + must-pass over the "
             "allocator's lookups on mir_built",
             "Static analysis, structural clauses only: identifiers are non-zero by type; every identifier-bearing header, "
             "enqueue and handle takes the allocator's result of the same operation; the allocator returns an identifier "
             "only after looking that very value up in the retained and release lists and finding it absent. With the last "
-            "clause the clause set is the property (for the in-flight sets the crate keeps).",
+            "clause the clause set is the property (for the in-flight sets the crate keeps). Non-zero holds by type, by a test of the value handed out, or by the invariant that every store to the counter is provably non-zero. The tables the allocator consults lose only the entry an acknowledgement names (index provenance).",
             "DESIGN.md §4 C07"),
     "C12": ("dominance over Session::connect + store-shape of the reset functions + provenance of the CONNECT buffer",
             "Static analysis, structural clauses only: reader reset, timer reset and the unconditional re-arm of all queues "
             "dominate the handshake on every path and connect() has no exit that bypasses the handshake; CONNECT is the first "
             "I/O; the CONNECT scratch must not depend on in-flight state (known finding: it is the arena tail). Because the "
             "resets are unconditional the clause holds for every prior history (all crash points of all operations) without "
-            "enumerating them. Broker behaviour is not modelled. What CONNECT advertises (Receive Maximum, Maximum Packet Size, Session Expiry) is computed from configuration and capacities, never from in-flight state. The window of a reconnected session is not charged for publishes discarded with the previous broker session.",
+            "enumerating them. Broker behaviour is not modelled. What CONNECT advertises (Receive Maximum, Maximum Packet Size, Session Expiry) is computed from configuration and capacities, never from in-flight state. The window of a reconnected session is not charged for publishes discarded with the previous broker session. Compaction reclaims every hole (no return of compact bypasses the pass over the retained list), so the free tail CONNECT is encoded into is as large as the retained packets allow (C17's compact / used groups).",
             "DESIGN.md §4 C12"),
     "C13": ("taint of transport byte counts vs. await points (Yield terminators of the pre-transform coroutine MIR) over "
             "the call tree + await-freedom of critical sections",
@@ -98,7 +98,7 @@ CLAIMED = {
             "Static analysis, structural clauses only: the four predicates are `len > max as usize` and answer PacketTooLarge; "
             "each transport write and each enqueue is dominated by the success edge of a size check of the very packet; "
             "CONNECT advertises the receive-buffer length and the broker limit is written only from the CONNACK; the receive "
-            "window is sliced only within the buffer. Sizes around the limit are not enumerated.",
+            "window is sliced only within the buffer. Sizes around the limit are not enumerated. Every successful handshake stores the limit itself, so it is the limit of the current CONNACK.",
             "DESIGN.md §4 C14"),
     "C09": ("table extraction from MIR (match arms, generic arguments, aggregates) compared cell by cell with MQTT 5 and "
             "between sibling tables; value-set folding of flag bytes with control-dependence guards; interval abstract "
@@ -108,7 +108,7 @@ CLAIMED = {
             "encoded_len vs the varint boundaries for every bit-length class; CONNECT flags, subscription options and "
             "PUBLISH flags bit by bit with their guards; CONNECT field wiring and the field order of all packet "
             "serializers; checked u16 length prefixes. This covers all property kinds x packets without enumerating "
-            "values. Byte-level round trips and user payload closures are not decided.",
+            "values. Byte-level round trips and user payload closures are not decided. The publication builder keeps a correlation entry whatever user properties are installed before or after it (C20's clauses).",
             "DESIGN.md §4 C09"),
     "C10": ("who-may-write + dependence (fields read by the ping-due test) + dominance/post-dominance + decision-table "
             "extraction (truth table of the due test over the Option states) + interval abstract interpretation of the "
@@ -125,35 +125,35 @@ CLAIMED = {
             "PARTIAL: static analysis decides only that partial-I/O counts are what advances state: commit(count of this "
             "read), read_bytes += count, window from read_bytes, bounded look-ahead while the length is unknown, "
             "bytes[written..] resume, cursor advance by the accepted count, zero-length I/O handling, take buffer[..len]. "
-            "Equality of whole runs under different chunkings is a relation between executions and is NOT decided.",
+            "Equality of whole runs under different chunkings is a relation between executions and is NOT decided. Every queued entry restarts from byte 0 on a new transport (C01's clause): an offset counted on one transport never selects the bytes sent on the next.",
             "DESIGN.md §4 C15"),
     "C17": ("who-may-write / who-may-borrow-mutably census of the arena + dominance (compact before every view) + wiring",
             "Static analysis, structural clauses only: every mutable arena view is buf[used..] after a dominating compact; "
             "only compact and the DUP patch otherwise write arena bytes; the patch shape; compact's copy/bookkeeping/cursor "
             "shape and order; (offset,len) wiring encoder -> retained entry -> step -> slice; writers of `used`; free space "
             "is a function of the retained entries. Leak freedom over long histories is argued from these who-may-write "
-            "facts (they hold for histories of any length), not measured; compact's arithmetic is not evaluated. An acknowledgement with a failure code still releases the retained packet (entry removed before the reason code is examined, in all five arms).",
+            "facts (they hold for histories of any length), not measured; compact's arithmetic is not evaluated. An acknowledgement with a failure code still releases the retained packet (entry removed before the reason code is examined, in all five arms). No return of compact bypasses the pass over the list; the in-flight count charged to a fresh window is read after the reset (C06's clause).",
             "DESIGN.md §4 C17"),
     "C18": ("decision-table extraction of Session::status by constraint-tracking path enumeration + wiring + path-sensitive "
             "must-pass in the five acknowledgement arms",
             "Static analysis, structural clauses only: status table (generation first; retained / release-list membership "
             "per kind); lookups compare identifiers; handle creation wiring (kind, allocator id, current generation, only "
             "after enqueue); in each ack arm removal precedes the reason check, the failure is returned and surfaced, and a "
-            "failing PUBREC leaves no release entry. Identifier reuse is C07. The session reset that invalidates handles is placed on the no-session edge, on every path, before any other failure of the handshake.",
+            "failing PUBREC leaves no release entry. Identifier reuse is C07. The session reset that invalidates handles is placed on the no-session edge, on every path, before any other failure of the handshake. An acknowledgement finds the entry it names: the lookup tests the identifier only, nothing that changes while the packet is in flight, removes that entry and reports the removal.",
             "DESIGN.md §4 C18"),
     "C19": ("decision-table extraction (135 cells) and interval extraction of value predicates vs MQTT 5; sibling coverage "
             "valid_for vs serialize; dominance of validation over every effect; wiring of the effective QoS",
             "Static analysis, structural clauses only: is_valid_for table vs MQTT 5 (must-accept / must-reject / don't-care); "
             "value predicates as intervals; valid_for covers everything serialize emits; validation with the right context "
             "dominates allocation, encode, enqueue, quota and writes; empty lists refused first; downgraded QoS used "
-            "everywhere; DISCONNECT scratch (known finding). All 27 kinds x 5 contexts are decided as table cells. Tearing the handle down counts among the traces a refused request must not leave.",
+            "everywhere; DISCONNECT scratch (known finding). All 27 kinds x 5 contexts are decided as table cells. Tearing the handle down counts among the traces a refused request must not leave. Every exit that reports a fatal error has passed the latch the operations' live gate tests (C11's clauses); Maximum QoS is stored by every successful handshake.",
             "DESIGN.md §4 C19"),
     "C20": ("wiring chain (expression reconstruction) from inbound property lookup to the reply publication + "
             "fallible-conversion census",
             "Static analysis, structural clauses only: each link of the chain response_topic/correlation_data -> "
             "response_target -> publication -> correlate/with_correlation -> with_properties keeps exactly the requester's "
             "topic and correlation data; lookups are independent fresh iterations (position independent); owned copies use "
-            "only fallible conversions mapped to BufferTooSmall. Byte-level encoding is C09. Every property identifier decodes to its own Property variant (nothing else can turn into ResponseTopic / CorrelationData).",
+            "only fallible conversions mapped to BufferTooSmall. Byte-level encoding is C09. Every property identifier decodes to its own Property variant (nothing else can turn into ResponseTopic / CorrelationData). No return of with_properties bypasses the test for a correlation entry.",
             "DESIGN.md §4 C20"),
     "C08": ("panic-site enumeration over the inbound call graph (MIR Assert terminators + panicking callees) with "
             "guard-dominance re-verification; decode-table extraction vs MQTT 5; shape analysis of the varint reader; "
